@@ -12,7 +12,7 @@ from . import numdiff
 SKIP_OPTIONS = {"distributed", "run_root_only", "always_opt", "use_jit", "default_shape", "derivs_method",
                 "assembled_jac_type"}
 # partials the code itself declares as finite differences: the code's own claim is a forward difference
-FD_DECLARED = {"WingboxGeometry": 1e-4}
+FD_DECLARED = {"WingboxGeometry": 5e-4}
 
 
 def leaf_components(model):
